@@ -106,17 +106,17 @@ def gen_slices(rng, text_ok: bool) -> list:
     r = rng.random()
     if text_ok:
         if r < 0.6:
-            return [["idx", rng.choice([0, 0, 1, 1, 2, 3])]]
+            return [["idx", rng.choice([0, 0, 0, 0, 1, 1, 1, 2])]]
         if r < 0.93:
             a = rng.choice([0, 0, 1, 2])
             return [["slice", a, rng.choice([0, 1, 2, 3, 5]), None if rng.random() < 0.8 else rng.choice([1, 2])]]
-        return [["idx", 0], ["idx", 1]]                      # `<a>[0, 1]`: TypeError
+        return [["idx", 0], ["idx", 1]] if r > 0.97 else [["idx", 0]]      # `<a>[0, 1]`: TypeError
     if r < 0.5:
-        return [["idx", rng.choice([0, 1, 2, -1, -1, -2, -3, 4])]]
+        return [["idx", rng.choice([0, 0, 1, -1, -1, -1, -2, 2, -3, 4])]]
     if r < 0.95:
         return [["slice", rng.choice([None, 0, 1, -1, -2, 2]), rng.choice([None, 1, 2, -1, 3, 0]),
                  rng.choice([None, None, None, 1, 2, 3])]]
-    return rng.choice([[], [["idx", 0], ["slice", 0, 1, None]]])
+    return rng.choice([[], [["idx", 0], ["slice", 0, 1, None]], [["idx", 0]], [["idx", -1]]])
 
 
 def children_of(g, nt: str) -> list[str]:
